@@ -16,6 +16,7 @@ type propCfg struct {
 	ChildTimeoutQ   time.Duration
 	ChildTimeoutT   time.Duration
 	MayBeExhaustive bool
+	Require         []string // counters of observed events that must be non-zero, else the run is INCONCLUSIVE
 	Rule            string
 	Assumptions     []string
 }
@@ -28,96 +29,115 @@ var commonAssumptions = []string{
 
 var props = map[string]propCfg{
 	"C19": {
+		Require: []string{"reports_checked", "status_calls_checked", "bytes_relayed_client_to_server", "bytes_relayed_server_to_client", "messages_listed_in_reports"},
 		BinRace: true, QuickBatches: 5, ThoroughBatches: 40, Parallel: 5, Bins: []string{"proxy"}, Level: "exploration", Floor: 20,
 		Rule:        "(a) sessions against the real proxy binary (race detector, built from the current tree) on TCP loopback: the harness is the upstream server, the client and the HTTP poller; 1-3 sequential connections per proxy process; client->server and server->client streams (up to 64 kB per session) made of valid frames, CRC-valid frames with malformed content (short MSM, oversize masks), hostile mixes, random bytes, and text/frames spelling HTML (<script>, </div>, <img ...>); chunk sizes {1,17,512,4096,random} with 0-2 ms gaps. Oracle: upstream-received = client-sent and client-received = server-sent per connection; the process is alive after every session (a death is reported with its panic/race text; a silent stall is judged from the SIGQUIT goroutine dump, otherwise inconclusive); every /status/report body is matched against the pinned page template and its five traffic-derived parts must contain no raw '<' or '>'; the messages listed (parsed back from their hex dumps) must be at most 20 and a contiguous run, in order, of the same build's sequential framing of the bytes sent so far. (b) in process: ReportFeed.Status over a 20-message queue and client/server buffers filled from such traffic, same checks plus list length. Non-trivial: every session / Status call (all carry mixed traffic). Distinct by hash of the case.",
 		Assumptions: commonAssumptions,
 	},
 	"C16": {
+		Require: []string{"processes_checked"},
 		BinRace: true, QuickBatches: 8, ThoroughBatches: 48, Parallel: 8, Bins: []string{"rtcmlogger"}, Level: "exploration", Floor: 30,
 		Rule:        "the real rtcmlogger binary, built from the current tree with the race detector and the hook overlay, run as a process in a fresh directory: inputs of 0, 1, 2, 100, 5000, 8095, 8096, 8097, 2*8096-1..+1, 3*8096+1, 40 kB, 100 kB (thorough: up to 2 MB) bytes, random / all-zero / text; stdin as a regular file, a pipe written in chunks of 100 / 1000 / 8096 / random size with 0-3 ms gaps, or a pipe closed immediately after one write; GOMAXPROCS in {1,2,16}; hook profiles: none (natural schedule), a 20 ms delay before the recorder's write call, 5 ms before the log write, 3 ms before the recorder's receive, frequent yields. Oracle: process stdout equals stdin byte for byte, and after exit the date-ordered concatenation of rtcmlogger.*.rtcm in the configured directory equals stdin. Non-trivial: non-empty input with a hook profile or piped stdin. Distinct by hash of the case.",
 		Assumptions: commonAssumptions,
 	},
 	"C10": {
+		Require: []string{"filter_outputs_checked", "process_outputs_checked", "record_files_checked", "display_logs_checked"},
 		BinRace: true, QuickBatches: 8, ThoroughBatches: 48, Parallel: 8, Bins: []string{"rtcmfilter"}, AppTests: []string{"rtcmfilter"}, Level: "exploration", Floor: 40,
 		Rule:        "(a) in process, through a test file added to apps/rtcmfilter at check time by the build overlay: HandleMessages(start, reader, writer, config) with all four display/record combinations, paced/chunked readers, writers that are fast / yielding / sleeping, GOMAXPROCS in {1,2,4,16}, race detector on; the written bytes are compared at quiescence, defined on goroutine states (every goroutine with a frame in apps/rtcmfilter/main.go parked in a channel receive or gone, no write in flight, call counter stable). (b) the real binary built from the current tree with the hook overlay and the race detector: stdin as a file or a pipe written in random chunks with gaps, stdout read fast or through a 4 kB pipe read slowly, yield/sleep hook profiles, files read after exit as the date-ordered concatenation of the fresh log directory. Oracle: output (and record file when recording) = concatenation of the typed messages of the same build's sequential framing, each required to be a frame by the independent predicate; readable log has one 'Frame length N bytes:' entry per delivered message. Inputs: captured batches, clean streams ending in a frame, hostile streams, well-formed decodable messages, truncated tails. Non-trivial: >= 2 messages delivered. Distinct by hash of the case.",
 		Assumptions: commonAssumptions,
 	},
 	"C11": {
+		Require: []string{"complete_at_return", "process_output_complete"},
 		BinRace: true, QuickBatches: 8, ThoroughBatches: 48, Parallel: 8, Bins: []string{"rtcmfilter", "displayrtcm3"}, AppTests: []string{"rtcmfilter", "displayrtcm3"}, Level: "exploration", Floor: 40,
 		Rule:        "in process (overlay-added test in each application's package main, race detector on): HandleMessages is called with a writer that completes each Write only after a delay (none / yields / 20 us - 1.5 ms sleep / blocks 5 ms per call) and counts completed bytes; the bytes completed are snapshotted by the calling goroutine in the statement after the call returns - no waiting is part of the verdict: a strict prefix of the full expected output = violation, equal = held. Expected output from the same build sequentially: headings + String()+newline of every message (displayrtcm3) or the valid frames (rtcmfilter). Inputs with 1..200 messages ending in a valid frame / junk / truncated frame; GOMAXPROCS in {1,2,16}. Plus process-level runs of both real binaries over finite files with stdout read fast or through a small slow pipe: the bytes that reach the pipe before exit are compared the same way. Non-trivial: non-empty input and a writer that is not instantaneous. Distinct by hash of the case.",
 		Assumptions: commonAssumptions,
 	},
 	"C15": {
-		Race: true, QuickBatches: 8, ThoroughBatches: 64, Parallel: 8, Level: "exploration", Floor: 50,
+		Require: []string{"history_steps_compared", "stream_messages_compared", "concurrent_displays", "first_seen_types_displayed_concurrently"},
+		Race:    true, QuickBatches: 8, ThoroughBatches: 64, Parallel: 8, Level: "exploration", Floor: 50,
 		Rule:        "a pool of ~250 frames (captured receiver frames; generated well-formed MSM4/MSM7 of all 14 types incl. illegal timestamps and padding, truncated ill-formed bodies, 1005/1006 well-formed and truncated, random frames of other types). Canonical result per frame and log level = decoded struct (reflect.DeepEqual) and readable text with the two MSM time lines removed, from a fresh handler processing that frame first. Histories: 200 frames in random order with immediate and distant repetitions through ONE handler at both levels, each step compared with the canonical result, displayed twice, raw-byte hash before/after. Concurrency under the race detector: 2-16 goroutines each with its own handler decoding from the SAME input byte slices, every message value-copied (as the fan-out does) to 2-4 consumer goroutines that display, Analyse, PrepareForDisplay, Copy and set their own log level; GOMAXPROCS in {2,4,16}; two goroutines never share one *Message (the property speaks of copies). Non-trivial: every history/concurrent run (each mixes all types). Distinct by hash of (pool seed, order / parameters).",
 		Assumptions: commonAssumptions,
 	},
 	"C18": {
-		Race: true, QuickBatches: 8, ThoroughBatches: 64, Parallel: 8, Level: "exploration", Floor: 500, MayBeExhaustive: true,
+		Require: []string{"sequences_enumerated", "linearizable_histories", "long_run_additions"},
+		Race:    true, QuickBatches: 8, ThoroughBatches: 64, Parallel: 8, Level: "exploration", Floor: 500, MayBeExhaustive: true,
 		Rule:        "(1) exhaustive: ALL sequences over {Add, snapshot} of length 14 (quick) / 18 (thorough) for every capacity 1..8, each step compared with a 'last N of a list' model and len(Items) read under the queue's own RLock; (2) long runs of 10^5 (quick) / 10^7 (thorough) additions for capacities {1,2,3,5,8,20} with EVERY snapshot checked; (3) concurrent histories: capacities {1,2,3,8}, 1-3 adders x 1-3 snapshot readers, 10-30 operations each, unique message ids, call/return stamps from one atomic counter recorded at the client boundary, checked with porcupine (linearizability against the list model; timeout = inconclusive), size bound checked online, race detector on, GOMAXPROCS in {2,4,16}. Non-trivial: more additions than the capacity (sequential) / at least two concurrent clients (concurrent). Distinct by (capacity, sequence) or hash of the history parameters.",
 		Assumptions: append([]string{"porcupine v1.3.0 decides linearizability of the recorded histories correctly"}, commonAssumptions...),
 	},
 	"C13": {
-		Race: true, QuickBatches: 8, ThoroughBatches: 64, Parallel: 8, Level: "fault_enumeration", Floor: 200,
+		Require: []string{"tolerant_scripts_checked", "stop_scripts_checked", "stop_scripts_zero_tolerance", "stop_scripts_other_error", "stop_scripts_silence_beyond_tolerance"},
+		Race:    true, QuickBatches: 8, ThoroughBatches: 64, Parallel: 8, Level: "fault_enumeration", Floor: 200,
 		Rule:        "short streams (2-4 small frames, junk, optional truncated tail, some hostile; <= 400 bytes) read through a scripted io.Reader behind bufio by the real file handler with wait 1 ms / tolerance 120 ms. Tolerant scripts: a single end-of-file or i/o timeout at EVERY byte boundary; double faults (eof / 'i/o timeout' text / wrapped os.ErrDeadlineExceeded, any pair) at every 4th boundary; two separate interruptions (single or double) at random boundaries - all bytes must be processed exactly once in order (delivered sequence = the same build's sequential framing of all bytes), the channel closed and an error returned at the final silence. Stop scripts at every (quick: every 3rd) boundary: zero tolerance, another read error, or silence beyond the tolerance followed by data that must not be consumed - delivered = sequential framing of the bytes supplied before the stop (partial frame as non-RTCM), channel closed, error returned. The reader timestamps its faults: a tolerant script on which the handler gave up while two consecutive faults were >= half the tolerance apart is retried and otherwise inconclusive. Non-trivial: the fault falls strictly inside a frame. Distinct by hash of the script.",
 		Assumptions: commonAssumptions,
 	},
 	"C09": {
-		Race: true, QuickBatches: 16, ThoroughBatches: 96, Parallel: 8, Level: "exploration", Floor: 40,
+		Require: []string{"messages_received_by_consumers", "hook_events", "sources_processed"},
+		Race:    true, QuickBatches: 16, ThoroughBatches: 96, Parallel: 8, Level: "exploration", Floor: 40,
 		Rule:        "pipeline runs of the real file handler + fan-out (appcore.HandleMessagesUntilEOF) under the race detector: inputs are the captured batches and generated clean/hostile streams (200 B - 12 kB); the reader delivers chunks of 1..{1,2,7,64,500,5000} bytes with yield/sleep profiles; 1-4 consumer channels with capacities {0,1,4,64}, nil entries at any index and fast/yielding/slow(50us-2ms)/bursty consumers; GOMAXPROCS in {1,2,3,4,8,16}; check-time yield/sleep hooks before every channel operation of file_handler, handler, pushback and appcore (5 profiles). Oracle: every non-nil consumer's (type, raw bytes) sequence equals the same build's sequential framing of the same bytes; raw bytes do not change after delivery; the call returns 0; afterwards no goroutine with a frame in the four pipeline files remains (blocked in every sample for 200 ms = violation, still runnable = inconclusive); double close / send on closed channel / race report end the child. Non-trivial: >=2 real consumers, >=10 messages and a perturbation active. Distinct by hash of (input, reader, consumers, GOMAXPROCS, hook profile, seed).",
 		Assumptions: commonAssumptions,
 	},
 	"C06": {
+		Require:      []string{"times_compared", "illegal_timestamps_reported_as_errors"},
 		QuickBatches: 8, ThoroughBatches: 64, Parallel: 16, Level: "exploration", Floor: 100,
 		Rule:        "histories generated truth first: a start time T (any of 7 time zones; half of them within +-2 s, a quarter of those within +-2 ms, of a constellation's week rollover), then per participating constellation (random non-empty subset of GPS, GLONASS, Galileo, BeiDou) true UTC observation instants u1 <= u2 <= ... with u1 >= T inside T's constellation week and gaps in {0, 1 ms, seconds, hours, up to 6 d - 1 ms, exactly on/around the next rollover}, spanning 0..many rollovers; each instant is converted to its 30-bit timestamp by pure time arithmetic (no rollover logic in the oracle); constellations and MSM4/MSM7 types are interleaved at random and illegal timestamps (>= 7 d of ms; GLONASS day 7 or >= 24 h of ms) are spliced in anywhere. The frames go through handler.GetMessage on one handler, a third of the histories through the stream handler. Every reported SentAt and StartOfWeek is parsed back and must equal the true instant / true week start; illegal timestamps must come back as errors without disturbing later messages. Non-trivial: >=2 constellations cross a rollover, or an illegal timestamp is followed by valid messages. Distinct by hash of the history.",
 		Assumptions: commonAssumptions,
 	},
 	"C17": {
+		Require:      []string{"times_compared"},
 		QuickBatches: 8, ThoroughBatches: 64, Parallel: 16, Level: "exploration", Floor: 100,
 		Rule:        "as C06, but the first observation of each constellation is drawn anywhere in the constellation week that contains the start time T: the first instant of the week, T itself, 1 ms / up to 3 s before T, the last millisecond of the week, or uniformly - followed by a C06-style continuation across rollovers. Non-trivial: some constellation's first observation is earlier than T. Distinct by hash of the history.",
 		Assumptions: commonAssumptions,
 	},
 	"C08": {
+		Require:      []string{"ranges_compared", "phase_ranges_compared", "rates_compared", "msm4_msm7_pairs_compared", "invalid_rough_cells", "invalid_rate_cells"},
 		QuickBatches: 8, ThoroughBatches: 64, Parallel: 16, Level: "exploration", Floor: 1000,
 		Rule:        "signal cells for GPS, GLONASS, Galileo and BeiDou MSM4/MSM7: whole ms random plus 0/254/255(invalid), and all 0..255 swept with boundary fractions; fractional in {0,1,511,512,1023,random}; fine range / phase / rate in {min(invalid), min+1, -1, 0, 1, max, random}; rough rate in {-8192(invalid), +-8191, 0, +-1, random}; signal ids mostly those with a documented frequency, all 8x32 (constellation, id) pairs swept. Three quarters of the cells are obtained by decoding a one-cell message built by the independent encoder (so the library assigns the wavelength), one quarter by direct construction. Oracle: 200-bit big.Float evaluation of c/1000*(whole+frac/1024+fine*2^-24|2^-29), the same with 2^-29|2^-31 divided by the wavelength, rough+fine/10000 and its negative over the wavelength; relative tolerance 1e-12; wavelength against c/f from a table pinned in the harness; invalid-rough => zero and 'invalid' in the text; invalid-fine => rough alone; MSM4 cell vs the MSM7 cell encoding the same quantity; cases with a negative true value are executed but excluded from the numeric comparison, as the property states. Non-trivial: rough range not 0/0. Distinct by hash of the case.",
 		Assumptions: commonAssumptions,
 	},
 	"C05": {
+		Require:      []string{"decodes_compared", "displays_checked", "rejections_observed", "raw_frame_truncations_swept"},
 		QuickBatches: 8, ThoroughBatches: 64, Parallel: 16, Level: "exploration", Floor: 500, MayBeExhaustive: true,
 		Rule:        "enumerated: every boundary coordinate (-2^37, -2^37+1, +-1, 0, +-9999, +-10000, +-10001, every power of two +-1, 2^37-1) on each axis for both types; boundary antenna heights; EVERY truncation length 0..full-1 (must be an error, never a panic); EVERY other number in the 12-bit type field (must be an error). Random: 1005/1006 descriptions with full-range station id, ITRF year, reserved groups, coordinates (uniform 38-bit, realistic ECEF, boundary) and height, with and without trailing bytes. Each is encoded by the independent encoder and decoded by type1005/type1006 GetMessage and through handler.GetMessage + Message.String at both log levels; fields compared exactly; displayed coordinates/height compared with pure-integer formatting of value*0.0001 to four decimals. Non-trivial: all three coordinates non-zero, or a boundary/truncation/wrong-type case. Distinct by hash of the case.",
 		Assumptions: commonAssumptions,
 	},
 	"C20": {
+		Require:      []string{"types_enumerated", "decoder_family_checks", "handler_dispatch_checks"},
 		QuickBatches: 8, ThoroughBatches: 16, Parallel: 16, Level: "exploration", Floor: 20, MayBeExhaustive: true,
 		Rule:        "complete enumeration of the 4096 message types and the two negative sentinels. For each: MSM4/MSM7/MSM predicates, constellation name and title against a table written out from the property statement; for each non-negative type five synthetic CRC-valid frames (well-formed MSM4 body, MSM7 body, 1005 body, 1006 body, random bytes; thorough adds 64 more) checked for: header/decoder family acceptance, timestamp extraction only for the fourteen MSM types, full decoding attempted for exactly MSM4, MSM7, 1005, 1006 (observed as a decoded struct or a decoder error text versus the 'cannot be displayed' strings), and non-empty display at both log levels. Non-trivial: the 14 MSM types, their neighbours 1070..1140, 1005, 1006, 1230 and the sentinels. Distinct by type number.",
 		Assumptions: commonAssumptions,
 	},
 	"C04": {
+		Require:      []string{"decodes_compared", "encoder_validated_on_captured_msm_frames"},
 		QuickBatches: 8, ThoroughBatches: 64, Parallel: 16, Level: "exploration", Floor: 500,
 		Rule:        "random well-formed MSM4/MSM7 descriptions for all 14 types (cycled): mask shapes empty-satellite, empty-signal, 1x1, 1xk, 64x1, nx1, 32x2, 2x32, nxm with n*m<=64; cell masks all-ones / single one / sparse rows / dense / random; field styles random / all-zero / all-ones / invalid markers and neighbours / zero lock+half+CNR tails; multiple-message flag set only when a cell is present. Each description is encoded by the independent encoder at several padding sizes (0, small, 0..13, up to the 1023-byte limit) and decoded through the decoder package and through handler.GetMessage+Analyse; every exported header, satellite-cell and signal-cell field, the satellite/signal lists, the cell matrix and each cell's (satellite, signal id) attachment are compared with the description, so results at different paddings are compared with each other through it. The encoder itself is validated at every run by reproducing the captured real-receiver MSM frames bit for bit. Non-trivial: >=2 signal cells, or a zero-valued cell field, or >=3 padding bytes. Distinct by hash of (description, paddings).",
 		Assumptions: commonAssumptions,
 	},
 	"C07": {
+		Require:      []string{"type_length_pairs_swept", "stream_messages", "frames_reported_as_error"},
 		QuickBatches: 16, ThoroughBatches: 128, Parallel: 16, Level: "exploration", Floor: 1000,
 		Rule:        "(1) CRC-valid frames for each of 19 type numbers (1005, 1006, the 14 MSM types, 1230, 1, 4095) x EVERY payload length 1..1023 x payload shapes (uniform random, sparse, all ones, plausible header with few mask bits, masks announcing 65..2048 cells, zeros), plus all 256 one-byte payloads; (2) well-formed 1005/1006/MSM bodies (independent encoder) truncated at every byte position, with mask bits forced upward, and with illegal timestamps; (3) arbitrary streams through the stream handler (all 0xD3, maximal length claims with short data, random up to 20 kB / 1 MB, hostile mixes). Each frame goes through single-frame decoding, Copy, String, Analyse, PrepareForDisplay and String again at both log levels under recover(); streams run on the handler's own goroutine so a panic there ends the child and is attributed to the on-disk witness. A case that runs for 60 s (>10^4 x median) is re-run alone and only then called a hang. Non-trivial: a CRC-valid frame of a decodable type shorter than / inconsistent with its layout, or a hostile stream. Distinct by hash of the bytes.",
 		Assumptions: commonAssumptions,
 	},
 	"C01": {
+		Require:      []string{"stream_typed_deliveries", "stream_rejected_d3_candidates", "direct_typed_no_error", "direct_rejected"},
 		QuickBatches: 8, ThoroughBatches: 64, Parallel: 16, Level: "exploration", Floor: 200,
 		Rule:        "hostile streams (valid frames of random type/length, stray 0xD3 runs, near-miss leaders, frames with one corrupted CRC byte / payload byte / forced 0xD3 / burst, length-field edits with and without CRC recomputation, truncated frames, NMEA/UBX/HTTP-like junk, random bytes dense in 0xD3) run through the stream handler, every typed delivery checked with an independent frame predicate (bitwise CRC-24Q); plus direct single-frame decoding of candidates (valid, valid+trailing bytes, crafted over-long inputs whose declared-length prefix has a bad CRC but whose whole has a good one, corrupted, truncated, zero-length, random). A stream is non-trivial when the gate took both outcomes (>=1 typed delivery and >=1 rejected 0xD3-led candidate); a direct call is non-trivial when the input is 0xD3-led and rejected, or typed with input longer than the frame. Distinct by hash of the input bytes.",
 		Assumptions: commonAssumptions,
 	},
 	"C02": {
-		Race: true, QuickBatches: 16, ThoroughBatches: 64, Parallel: 8, Level: "exploration", Floor: 200,
+		Require: []string{"messages_delivered", "hook_events"},
+		Race:    true, QuickBatches: 16, ThoroughBatches: 64, Parallel: 8, Level: "exploration", Floor: 200,
 		Rule:        "inputs: empty, lone 0xD3, 0xD3 runs, junk ending in 0xD3, every truncation point of a frame (alone and after a complete frame), hostile and clean generated streams; each run under several schedules: input channel capacity in {0,1,2,64,len}, output capacity in {0,1,8}, producer/consumer timing profiles (full speed, frequent yields, rare sleeps, bursts), GOMAXPROCS in {1,2,4,16}, and check-time yield/sleep hooks before every channel operation of the handler. Oracle: concatenation of delivered raw bytes equals the input, no empty message, output closed (range terminates), HandleMessages returned; a second close or send-after-close is observed as a crash of the child; race detector on. Non-trivial: the input has segments of at least two kinds or ends inside a frame. Distinct by hash of (input, capacities, GOMAXPROCS, profiles).",
 		Assumptions: commonAssumptions,
 	},
 	"C03": {
+		Require:      []string{"payload_lengths_swept", "truncation_positions_swept", "messages_delivered_as_expected"},
 		QuickBatches: 8, ThoroughBatches: 64, Parallel: 16, Level: "exploration", Floor: 200,
 		Rule:        "streams built from valid frames (any type, payload 1..1023; every payload length swept at least once; 0xD3 forced into payloads and found in CRC bytes), 0xD3-free junk runs (NMEA, UBX-like, HTTP, random; adjacent runs merged) and an optional truncated final frame (every truncation position of short frames swept). The expected (type, bytes) sequence is the generator's own segment list - no reference parser. Non-trivial: >=2 frames and (>=1 junk run or a truncated tail). Distinct by hash of the stream bytes.",
 		Assumptions: commonAssumptions,
 	},
 	"C12": {
+		Require:      []string{"single_bit_flips", "byte_overwrites", "random_faults", "neighbour_time_fields_compared"},
 		QuickBatches: 8, ThoroughBatches: 64, Parallel: 16, Level: "fault_enumeration", Floor: 1000,
 		Rule:        "streams of 2..5 short frames and 0xD3-free junk; every frame in turn is the victim; faults: every single-bit flip of payload and CRC (exhaustive for the short frames), every byte overwritten by 0xD3 and by 0x00, random multi-bit sets, bursts of 2..32 bits, CRC-only and payload-only corruption, plus random faults in large frames; the 3-byte leader is never touched; corruptions that keep the CRC valid are skipped and counted. Expected sequence by construction: the victim as one non-RTCM message with exactly its corrupted bytes, every other segment unchanged. Non-trivial: the victim has a successor frame. Distinct by hash of (faulted stream, victim index).",
 		Assumptions: commonAssumptions,
